@@ -917,6 +917,14 @@ class RTCSctpTransport(AsyncIOEventEmitter):
             ochunk._retransmit = False
             if ochunk.flags & SCTP_DATA_LAST_FRAG:
                 break
+        else:
+            # the rest of the message has not been transmitted yet
+            while self._outbound_queue:
+                ochunk = self._outbound_queue.popleft()
+                ochunk._abandoned = True
+                self._sent_queue.append(ochunk)
+                if ochunk.flags & SCTP_DATA_LAST_FRAG:
+                    break
 
         return True
 
@@ -1207,7 +1215,7 @@ class RTCSctpTransport(AsyncIOEventEmitter):
                     highest_newly_acked = schunk.tsn
 
             # strike missing chunks prior to HTNA
-            for schunk in self._sent_queue:
+            for schunk in list(self._sent_queue):
                 if uint32_gt(schunk.tsn, highest_newly_acked):
                     break
                 if schunk.tsn not in seen:
@@ -1513,7 +1521,7 @@ class RTCSctpTransport(AsyncIOEventEmitter):
         self.__log_debug("x T3 expired")
 
         # mark retransmit or abandoned chunks
-        for chunk in self._sent_queue:
+        for chunk in list(self._sent_queue):
             if not self._maybe_abandon(chunk):
                 chunk._retransmit = True
         self._update_advanced_peer_ack_point()
